@@ -332,6 +332,37 @@ theorem size_counts (r : Range) : r.size = ((members r).length : Int) := by
   by_cases h : r.start > r.finish <;> simp only [h, decide_true, decide_false, if_true, if_false,
     Bool.false_eq_true] <;> omega
 
+/-! ### the operand may be the object itself (`r -= r`, `r *= r`, ...)
+
+`range.h` takes its range operand by reference.  The `…Self` definitions (regenerated like the others) are what the member
+computes when the operand aliases `*this`: every read of the operand sees the assignments already made.  The property's
+set semantics do not care whether the two operands are the same object, so each must equal the two-operand definition
+applied to `(r, r)`. -/
+
+theorem addAssign_self (r : Range) : r.addAssignRSelf = r.addAssignR r := by
+  cases r; simp [Range.addAssignRSelf, Range.addAssignR, Range.first, Range.last]
+
+theorem subAssign_self (r : Range) : r.subAssignRSelf = r.subAssignR r := by
+  cases r; simp [Range.subAssignRSelf, Range.subAssignR, Range.first, Range.last]
+
+theorem mulAssign_self (r : Range) : r.mulAssignRSelf = r.mulAssignR r := by
+  cases r; simp [Range.mulAssignRSelf, Range.mulAssignR, Range.first, Range.last]
+
+theorem andAssign_self (r : Range) : r.andAssignRSelf = r.andAssignR r := by
+  cases r; simp [Range.andAssignRSelf, Range.andAssignR]
+
+theorem orAssign_self (r : Range) : r.orAssignRSelf = r.orAssignR r := by
+  cases r; simp [Range.orAssignRSelf, Range.orAssignR]
+
+theorem unite_intersect_self (r : Range) : r.addRSelf = r.addR r ∧ r.intersectRSelf = r.intersectR r := by
+  simp [Range.addRSelf, Range.addR, Range.intersectRSelf, Range.intersectR]
+
+/-- consequence: `r -= r` is the tightest interval of the differences of two members of `r` -/
+theorem sub_self_tight (r : Range) : r.subAssignRSelf = ⟨r.start - r.finish, r.finish - r.start⟩ := by
+  rw [subAssign_self]; cases r; simp [Range.subAssignR, Range.first, Range.last]
+
+example : (Range.mk 1 10).subAssignRSelf = ⟨-9, 9⟩ := by decide
+
 /-! ### non-vacuity: concrete operands meet every hypothesis used above -/
 example : NonEmpty ⟨-3, 4⟩ ∧ NonEmpty ⟨2, 2⟩ ∧ Mem 0 ⟨-3, 4⟩ := by simp [NonEmpty, Mem]
 example : (Range.mk (-3) 4).mulAssignR ⟨-2, 5⟩ = ⟨-15, 20⟩ := by decide
